@@ -4,6 +4,7 @@ mod cerclient;
 mod cerrun;
 mod conc;
 mod hid;
+mod leaks;
 mod psl;
 mod rp;
 mod rpid;
